@@ -5,7 +5,7 @@ import json, os, re, subprocess, sys, tempfile, shutil
 V = os.path.dirname(os.path.dirname(os.path.abspath(__file__)))
 SEEDED = os.path.join(V, 'seeded')
 RELATED = {'C01': ['C01', 'C07', 'C08', 'C09'], 'C02': ['C02', 'C12'], 'C03': ['C03', 'C13', 'C16'], 'C04': ['C04', 'C17', 'C10'], 'C05': ['C05', 'C17', 'C15'],
-           'C06': ['C06', 'C13'], 'C07': ['C07', 'C01'], 'C08': ['C08', 'C01'], 'C09': ['C09'], 'C10': ['C10', 'C05'], 'C11': ['C11', 'C09'],
+           'C06': ['C06', 'C13', 'C03'], 'C07': ['C07', 'C01'], 'C08': ['C08', 'C01'], 'C09': ['C09', 'C11', 'C14'], 'C10': ['C10', 'C05'], 'C11': ['C11', 'C09'],
            'C12': ['C12', 'C02'], 'C13': ['C13', 'C03', 'C06'], 'C14': ['C14', 'C12'], 'C15': ['C15', 'C05', 'C17'], 'C16': ['C16', 'C03'], 'C17': ['C17', 'C04', 'C05']}
 
 
